@@ -133,8 +133,15 @@ def lean_audit():
             res[m.group(1)] = [a.strip() for a in m.group(2).replace("\n", " ").split(",") if a.strip()]
         for m in re.finditer(r"'([^\n]+?)' does not depend on any axioms", text):
             res[m.group(1)] = []
-        with open(cache, "w") as fh:
-            json.dump(res, fh)
+        # cache only complete, successful audits (a build in flux must not poison later runs)
+        try:
+            from .theorems import THEOREMS
+            complete = res["__ok__"] and all(n in res for l in THEOREMS.values() for n in l)
+        except Exception:
+            complete = False
+        if complete:
+            with open(cache, "w") as fh:
+                json.dump(res, fh)
         return res
 
 
@@ -168,7 +175,15 @@ def model_batch(requests, timeout=600):
     if not requests:
         return []
     data = "\n".join(json.dumps(r) for r in requests) + "\n"
-    p = subprocess.run([MODEL_EXE], input=data, capture_output=True, text=True, timeout=timeout)
+    p = None
+    for attempt in range(40):
+        try:
+            p = subprocess.run([MODEL_EXE], input=data, capture_output=True, text=True, timeout=timeout)
+            break
+        except (FileNotFoundError, PermissionError, OSError):
+            time.sleep(1.5)          # the executable is being relinked by a concurrent `lake build`
+    if p is None:
+        return [{"ok": False, "error": "model executable unavailable"} for _ in requests]
     lines = [l for l in p.stdout.split("\n") if l.strip()]
     out = []
     for l in lines:
@@ -183,11 +198,19 @@ def model_batch(requests, timeout=600):
 
 def model_one(request, timeout=30):
     """one request in its own model process with a hard time-out (answer: error 'oracle-timeout')"""
-    try:
-        p = subprocess.run([MODEL_EXE], input=json.dumps(request) + "\n", capture_output=True, text=True,
-                           timeout=timeout)
-    except subprocess.TimeoutExpired:
-        return {"ok": False, "error": "oracle-timeout"}
+    p = None
+    for attempt in range(40):
+        try:
+            p = subprocess.run([MODEL_EXE], input=json.dumps(request) + "\n", capture_output=True, text=True,
+                               timeout=timeout)
+            break
+        except subprocess.TimeoutExpired:
+            return {"ok": False, "error": "oracle-timeout"}
+        except (FileNotFoundError, PermissionError, OSError):
+            # the executable is being relinked by a concurrent `lake build`
+            time.sleep(1.5)
+    if p is None:
+        return {"ok": False, "error": "model executable unavailable"}
     for l in p.stdout.split("\n"):
         if l.strip():
             try:
